@@ -40,6 +40,9 @@ static const JNode *member(const JNode &n, const std::string &key) {
                 return nullptr;
             }
         }
+        if (key.size() > 9) {
+            return nullptr; // beyond every array of the value trees (and beyond atoi)
+        }
         size_t i = (size_t)atoi(key.c_str());
         if (i < n.items.size() && !is_undef(n.items[i])) {
             return &n.items[i];
@@ -761,7 +764,7 @@ struct Gen {
     std::vector<ExprSpec>               cases;
     Gen() {
         for (auto p : {P({"a"}), P({"s"}), P({"f"}), P({"t"}), P({"u"}), P({"e"}), P({"ns"}), P({"arr"}), P({"o"}), P({"missing"}), P({"b", "0"}), P({"b", "2", "a"}),
-                       P({"o", "k1", "0"}), P({"o", "zz"}), P({"a", "x"}), P({"arr", "5"})}) {
+                       P({"o", "k1", "0"}), P({"o", "zz"}), P({"a", "x"}), P({"arr", "5"}), P({"arr", "4294967297"}), P({"b", "x"})}) {
             leaves.push_back(var(p));
         }
         for (auto p : {P({"s"}), P({"f"}), P({"o"}), P({"missing"}), P({"b", "2", "a"})}) {
